@@ -30,14 +30,14 @@ type maskOp struct {
 
 // site: one straight-line block with the bit guards that dominate it.
 type site struct {
-	Guards  []bitRef // positive bit tests that dominate the block
-	NegG    []bitRef // negative ones (else branches)
-	Other   []string // other guards (canonical strings)
-	Fields  []string // operand fields touched by wire/JSON/random ops or assignments in the block
-	Masks   []maskOp
-	Keys    []string // JSON keys appended (writer) in the block
-	Pos     token.Pos
-	HasOps  bool
+	Guards []bitRef // positive bit tests that dominate the block
+	NegG   []bitRef // negative ones (else branches)
+	Other  []string // other guards (canonical strings)
+	Fields []string // operand fields touched by wire/JSON/random ops or assignments in the block
+	Masks  []maskOp
+	Keys   []string // JSON keys appended (writer) in the block
+	Pos    token.Pos
+	HasOps bool
 }
 
 func isTL2MaskField(s string) bool {
@@ -262,6 +262,18 @@ func presenceCheck(c *Check, id string) {
 					hasAccessors = true
 					continue
 				}
+				// a mask that is handed to a callee as a nat argument is "used" for every bit
+				walkBlock(ir.Body, nil, func(n Node, _ []Guard) {
+					if call, ok := n.(*CallN); ok && call.Fn != nil {
+						sig := call.Fn.Type().(*types.Signature)
+						nNat, nVal := 0, 0
+						for i := 0; i < sig.Params().Len() && i < len(call.Args); i++ {
+							if r, _ := classifyParam(sig.Params().At(i), i, &nNat, &nVal); r == "nat" {
+								allGuards["natarg:"+call.Args[i]] = true
+							}
+						}
+					}
+				})
 				for _, s := range ss {
 					var tl1, tl2 []bitRef
 					for _, gd := range s.Guards {
@@ -306,6 +318,11 @@ func presenceCheck(c *Check, id string) {
 			}
 			if len(pt.maskToTL2) == 0 && len(pt.fieldToTL1) == 0 && len(pt.fieldToTL2) == 0 && !hasAccessors {
 				continue
+			}
+			if id == "C04" && g.co.Spec.TL2 {
+				// TL1→TL2 conversion is ReadTL1 followed by WriteTL2: the two TL2 passes and the TL2 reader
+				// must agree slot by slot (shared with C03)
+				g.tl2Agreement(c, name, roles)
 			}
 			if id == "C04" {
 				// maskToTL2 is keyed by the TL2 presence bit (one per masked field); value: the TL1 bit it mirrors
@@ -418,6 +435,7 @@ func (g *genCtx) accessorRules(c *Check, name string, roles map[string]*FuncInfo
 		case "set":
 			sig := fi.Obj.Type().(*types.Signature)
 			for _, s := range ss {
+				g.maskOpGuards(c, name+"."+role, s)
 				for _, mo := range s.Masks {
 					if mo.Set {
 						a.sets[mo.Target.String()] = true
@@ -434,6 +452,7 @@ func (g *genCtx) accessorRules(c *Check, name string, roles map[string]*FuncInfo
 			}
 		case "clear":
 			for _, s := range ss {
+				g.maskOpGuards(c, name+"."+role, s)
 				for _, mo := range s.Masks {
 					if mo.Set {
 						a.sets["!clear-sets:"+mo.Target.String()] = true
@@ -499,7 +518,11 @@ func (g *genCtx) accessorRules(c *Check, name string, roles map[string]*FuncInfo
 					}
 				}
 				for b := range exp {
-					if !allGuards[b] {
+					subject := b
+					if i := strings.LastIndex(b, "."); i > 0 {
+						subject = b[:i]
+					}
+					if !allGuards[b] && !allGuards["natarg:"+subject] {
 						problems = append(problems, "sets bit "+b+" that no reader/writer tests")
 					}
 				}
@@ -762,4 +785,30 @@ func (g *genCtx) unionAccessorRules(c *Check, name string, roles map[string]*Fun
 		c.Ob("accessor/union-variant", name+"."+v, len(problems) == 0, a.pos, fmt.Sprintf("index %v field %v %s", keysOf(idxs), keysOf(flds), strings.Join(problems, "; ")))
 	}
 	return true
+}
+
+// maskOpGuards: inside an accessor a presence-bit update may only be conditional on the bool
+// argument of a true-type setter, and — for an external TL1 mask reached through a pointer
+// parameter — on that pointer being non-nil. Anything else makes Set/Clear/IsSet disagree.
+func (g *genCtx) maskOpGuards(c *Check, construct string, s *site) {
+	for _, mo := range s.Masks {
+		var bad []string
+		for _, b := range s.Guards {
+			bad = append(bad, "bit("+b.String()+")")
+		}
+		for _, b := range s.NegG {
+			bad = append(bad, "!bit("+b.String()+")")
+		}
+		for _, o := range s.Other {
+			if o == "val" || o == "!val" {
+				continue
+			}
+			if strings.HasPrefix(mo.Target.X, "nat:") && (o == "("+mo.Target.X+" != nil)" || o == "!("+mo.Target.X+" != nil)" && false) {
+				continue
+			}
+			bad = append(bad, o)
+		}
+		c.Ob("accessor/bit-update-unconditional", construct+"/"+mo.Target.String(), len(bad) == 0, posStr(g.co.Fset, mo.Pos),
+			"update of "+mo.Target.String()+" is conditional on "+strings.Join(bad, " && "))
+	}
 }
